@@ -25,7 +25,14 @@ V13 = {
     "hrr13s": dict(ver="13", helloVerify=True, curvesC=[29], curvesS=[29], **NOCID),
     "nohrr13s": dict(ver="13", helloVerify=False, curvesC=[29], curvesS=[29], **NOCID),
 }
-ALL = dict(V12, **V13)
+# endpoints configured for both versions (the version is negotiated before either flight machine exists)
+VDUAL = {
+    "dualdual": dict(ver="13", cver="dual", sver="dual", helloVerify=True, curvesC=[29], curvesS=[29], **NOCID),
+    "dual-12": dict(ver="12", cver="dual", sver="12", helloVerify=True, **NOCID),
+    "dual-13": dict(ver="13", cver="dual", sver="13", helloVerify=True, curvesC=[29], curvesS=[29], **NOCID),
+    "12-dual": dict(ver="12", cver="12", sver="dual", helloVerify=True, **NOCID),
+}
+ALL = dict(V12, **V13, **VDUAL)
 
 # which Handshake12 model variant a scenario follows (same flights, one datagram per flight)
 MODEL12 = {"full12": "full", "psk12": "full", "ecdhepsk12": "full", "clientauth12": "full", "cid12": "full", "stale12": "full", "stores12": "full",
